@@ -314,6 +314,12 @@ pub fn run(outdir: &Path, tier: &str, seed: u64, shards: usize, _replay: Option<
         ("deep type expression 64".into(), deep_t(64), "query Q { x }".into()),
         ("deep type expression 1000".into(), deep_t(1000), "query Q { x }".into()),
         ("directive and arguments".into(), base.clone(), "query Q($a: Int = 3) { me @include(if: true) { name } }".into()),
+        // spread cycles in which every fragment is EXACTLY one spread, entered from a selection that is exactly one spread
+        ("pure spread cycle 1".into(), base.clone(), "query Q { ...A }\nfragment A on Query { ...A }".into()),
+        ("pure spread cycle 2".into(), base.clone(), "query Q { ...A }\nfragment A on Query { ...B }\nfragment B on Query { ...A }".into()),
+        ("pure spread cycle 3".into(), base.clone(), "query Q { ...A }\nfragment A on Query { ...B }\nfragment B on Query { ...C }\nfragment C on Query { ...A }".into()),
+        ("pure spread cycle under a field".into(), base.clone(), "query Q { me { ...P } }\nfragment P on Person { ...R }\nfragment R on Person { ...P }".into()),
+        ("pure spread chain, no cycle".into(), base.clone(), "query Q { ...A }\nfragment A on Query { ...B }\nfragment B on Query { me { name } }".into()),
         // a variable default that leaves out a REQUIRED member lying on a cycle of required members: whatever is
         // emitted for the missing member, rendering the default must follow the literal, not the type graph
         ("partial default on a non-null input cycle".into(), "input Ping { pong: Pong! note: String }\ninput Pong { ping: Ping! }\ntype Query { x(p: Ping): Int }\n".into(), "query Q($ping: Ping = { note: \"start\" }) { x(p: $ping) }".into()),
